@@ -61,44 +61,53 @@ STR_BYTES = [b"", b"plain", b"with space", b"q\"uote", b"back\\slash", b"nl\nlin
              b"/*c*/", b"'sq'", b"a=b", b"\xe9\xff", b"end\\", b"a,b", b"(p)", b"+=", b"\x01\x7f"]
 
 
-def dq_render(b, rng=None):
+def _join_units(units, rng, p_cont):
+    """concatenate the rendered units of a string body; with probability p_cont per gap a backslash-newline
+    (line continuation: contributes nothing to the value, one line to the count) goes in between"""
+    out = bytearray()
+    for k, u in enumerate(units):
+        if k and rng is not None and p_cont and rng.random() < p_cont:
+            out += b"\\\n"
+        out += u
+    return bytes(out)
+
+
+def dq_render(b, rng=None, p_cont=0.0):
     """render bytes as a double-quoted literal the way a careful user (or cfg_print) would"""
-    out = bytearray(b'"')
+    units = []
     i = 0
     while i < len(b):
         c = b[i]
         if c == 0x22:
-            out += b'\\"'
+            units.append(b'\\"')
         elif c == 0x5c:
-            out += b"\\\\"
+            units.append(b"\\\\")
         elif c == 0x24 and i + 1 < len(b) and b[i + 1] == 0x7b:
-            out += b"\\$"
+            units.append(b"\\$")
         elif rng is not None and c == 0x0a and rng.random() < 0.5:
-            out += b"\\n"
+            units.append(b"\\n")
         elif rng is not None and c == 0x09 and rng.random() < 0.5:
-            out += b"\\t"
+            units.append(b"\\t")
         elif rng is not None and rng.random() < 0.05:
-            out += b"\\x%02x" % c
+            units.append(b"\\x%02x" % c)
         elif rng is not None and rng.random() < 0.03:
-            out += b"\\%03o" % c
+            units.append(b"\\%03o" % c)
         else:
-            out.append(c)
+            units.append(bytes([c]))
         i += 1
-    out += b'"'
-    return bytes(out)
+    return b'"' + _join_units(units, rng, p_cont) + b'"'
 
 
-def sq_render(b):
-    out = bytearray(b"'")
+def sq_render(b, rng=None, p_cont=0.0):
+    units = []
     for c in b:
         if c == 0x27:
-            out += b"\\'"
+            units.append(b"\\'")
         elif c == 0x5c:
-            out += b"\\\\"
+            units.append(b"\\\\")
         else:
-            out.append(c)
-    out += b"'"
-    return bytes(out)
+            units.append(bytes([c]))
+    return b"'" + _join_units(units, rng, p_cont) + b"'"
 
 
 WORD_SAFE = set(range(33, 127)) - set(b" #\"'={}()+,*$\\/|")
@@ -112,9 +121,11 @@ def str_token(rng, b):
     st = rng.choice(styles)
     if st == "word":
         return bytes(b)
-    if st == "sq" and b"\n" not in b and not b.endswith(b"\\"):
-        return sq_render(b)
-    return dq_render(b, rng)
+    # a quarter of the quoted strings are written over several lines with continuations
+    p_cont = 0.3 if rng.random() < 0.25 else 0.0
+    if st == "sq" and not b.endswith(b"\\"):
+        return sq_render(b, rng, p_cont)
+    return dq_render(b, rng, p_cont)
 
 
 def value_token(rng, ty):
@@ -181,7 +192,12 @@ def gen_items(rng, opts, ctxflags, depth=0, maxitems=6, p_unknown=0.0, titles=No
                 if i:
                     toks.append(b",")
                 toks.append(str_token(rng, rng.choice(STR_BYTES + [b"fail"] if rng.random() < 0.05 else STR_BYTES)))
+            if k and rng.random() < 0.2:
+                toks.append(b",")       # `f(a, b,)` is accepted like `f(a, b)`
             toks.append(b")")
+            if rng.random() < 0.3:
+                # functions are often called several times in a row (include, search paths, ...)
+                toks += [nm, b"(", str_token(rng, rng.choice(STR_BYTES)), b")"]
         elif o.is_list():
             toks += [nm, rng.choice([b"=", b"=", b"+="])]
             form = rng.random()
@@ -206,7 +222,8 @@ def gen_items(rng, opts, ctxflags, depth=0, maxitems=6, p_unknown=0.0, titles=No
 
 def gen_unknown(rng, depth=0, maxdepth=3):
     """a syntactically well-formed item whose name is not declared anywhere"""
-    name = rng.choice([b"unk", b"unknown_opt", b"zz9", b"new-feature", b"Unk"])
+    # plain names, and names that look like paths (the parser resolves every name with the path resolver)
+    name = rng.choice([b"unk", b"unknown_opt", b"zz9", b"new-feature", b"Unk", b"extra|level", b"zzq|x|y", b'"zzp=1|x"', b"zzr|"])
     kind = rng.choice(["assign", "list", "append", "appendlist", "call", "sec", "tsec", "sec", "tsec"])
     v = lambda: rng.choice([b"1", b"x", b"\"q s\"", b"'}'", b"\"{\"", b"true", b"1.5", b"a/b"])
     if kind == "assign":
@@ -329,6 +346,8 @@ def rand_schema(rng, names=None, depth=0, maxdepth=2, width=5, allow=("int", "fl
                     flags |= TITLE
                     if rng.random() < 0.3:
                         flags |= NO_TITLE_DUPES
+            elif rng.random() < 0.2:
+                flags |= TITLE          # titled but single: the one instance exists from cfg_init(), untitled
             if rng.random() < 0.1:
                 flags |= KEYSTRVAL
             o = Opt(names.new("sec"), "sec", flags, None, "-",
